@@ -96,7 +96,7 @@ func c10Extra(c *Ctx) {
 	}
 	// (c) ls-files closure
 	if pkI := p.Pkg("private/bufpkg/bufimage"); pkI != nil {
-		if fr := p.Func("private/bufpkg/bufimage", "imageFileInfosWithOnlyTargetsAndTargetImportsRec"); fr != nil {
+		if fr := c10LsClosureRec(p); fr != nil {
 			iinfo := fr.Info()
 			g := p.CFGOf(fr.Decl.Body, iinfo)
 			var mark ast.Node
@@ -136,7 +136,7 @@ func c10Extra(c *Ctx) {
 					}
 				}
 			}
-			c.Ob("CLOSURE-COMPLETE", "imageFileInfosWithOnlyTargetsAndTargetImportsRec", fr.Decl.Pos(), ok, true, "once a file is marked, every successful exit passes the loop over its imports (no file is listed without its imports being followed): %v", ok)
+			c.Ob("CLOSURE-COMPLETE", "ls-closure-rec", fr.Decl.Pos(), ok, true, "once a file is marked, every successful exit passes the loop over its imports (no file is listed without its imports being followed): %v", ok)
 		}
 	}
 }
